@@ -189,3 +189,6 @@ def run(chk):
     thdm_basis(chk, mod, dem)
     yukawa_type(chk, mod, dem)
     exit_status(chk)
+    # C entry points: the configuration (force-output flag) and basis structs reach the C++ constructor unchanged
+    from . import C17b
+    C17b.thdm_mirror(chk)
